@@ -28,7 +28,7 @@ ASSUMPTIONS = [
     'shapely is not installed: AEIC.gridding.grid is imported with a harness-side stub for shapely.geometry.Polygon',
     'all points lie within [lowest grid line, highest grid line]; poles and more than one antimeridian crossing are excluded',
     'the segment is the straight line on the latitude/longitude map (unwrapped across the antimeridian)',
-    'share tolerance of the dense oracle 2/2000 + 1e-4; the exact judge compares normalised shares to 1e-9',
+    'share tolerance of the dense oracle 2/2000 + 1e-4; the exact judge compares normalised shares to 1e-9 + 5e-8 m / (segment length)',
     'a coordinate exactly on a grid line may be reported in either neighbouring cell (on the lowest line only cell 0 '
     'exists; on the highest line the labels n-2 and n-1 are both accepted; +-180 is one meridian on a -180..180 grid)',
     'pieces with zero share are not judged (a cell that receives nothing is never wrong)',
@@ -72,15 +72,15 @@ def _dense_agrees(d_impl, o_impl, d_dense):
     return [c for c in o_impl if c in big] == [c for c in d_dense if c in big]
 
 
-def _matches(rows, ref):
+def _matches(rows, ref, tol=R.EXACT_TOL):
     """rows: [(ilat, ilon, normalised share)] positive pieces in output order;
     ref: [(lat labels, lon labels, normalised share)]."""
     if len(rows) != len(ref):
         return False
-    return all(r[0] in e[0] and r[1] in e[1] and abs(r[2] - e[2]) <= R.EXACT_TOL for r, e in zip(rows, ref))
+    return all(r[0] in e[0] and r[1] in e[1] and abs(r[2] - e[2]) <= tol for r, e in zip(rows, ref))
 
 
-def _only_wrap_mismatches(rows, ref, nlat, nlon):
+def _only_wrap_mismatches(rows, ref, nlat, nlon, tol=R.EXACT_TOL):
     """Signature of WRAP: shares right, and every wrong label is the last grid value reported
     for a piece that lies on the first grid line of that axis.
     ref entries: (lat labels, lon labels, share, (on first lat line, on first lon line))."""
@@ -88,7 +88,7 @@ def _only_wrap_mismatches(rows, ref, nlat, nlon):
         return False
     seen = False
     for r, e in zip(rows, ref):
-        if abs(r[2] - e[2]) > R.EXACT_TOL:
+        if abs(r[2] - e[2]) > tol:
             return False
         for got, adm, n, on_first in ((r[0], e[0], nlat, e[3][0]), (r[1], e[1], nlon, e[3][1])):
             if got not in adm:
@@ -101,7 +101,7 @@ def _only_wrap_mismatches(rows, ref, nlat, nlon):
 
 def attribution(ev):
     p, tab, segs = ev['p'], ev['tab'], ev['segs']
-    g = R.GRIDS[p['gid']]
+    g = ev['grid']
     nlat, nlon = len(g['lat']), len(g['lon'])
     vio = []
     judged = 'dense-agree'
@@ -121,7 +121,7 @@ def attribution(ev):
     for k, s in enumerate(segs):
         ex = s['exact']
         idx = np.nonzero(tags == k)[0]
-        where = f'segment {k} {list(s["a"])}->{list(p["pts"][k + 1])} mdeg'
+        where = f'segment {k} {list(s["a"])}->{list(p["pts"][k + 1])} (1/{p["unit"]} deg)'
         if len(idx) == 0:
             vio.append(V('segment-missing', f'{where}: no piece reported'))
             continue
@@ -161,20 +161,21 @@ def attribution(ev):
             continue
         # --- re-judge with the exact interval oracle
         judged = 'exact-judged'
-        pos = [(c, sh) for c, sh in zip(cells, shares) if sh > R.EXACT_TOL]
+        tol = R.ratio_tol(ex['L'])
+        pos = [(c, sh) for c, sh in zip(cells, shares) if sh > tol]
         tot = sum(sh for _, sh in pos) or 1.0
         rows = [(c[0], c[1], sh / tot) for c, sh in pos]
         rtot = sum(x['raw'] for x in ex['pieces'])
         ref = [(x['lat'], x['lon'], x['raw'] / rtot, x['first']) for x in ex['pieces']]
-        neg = [sh for sh in shares if sh < -R.EXACT_TOL]
-        if _matches(rows, ref) and not neg and abs(tot - 1.0) <= R.DENSE_TOL:
+        neg = [sh for sh in shares if sh < -tol]
+        if _matches(rows, ref, tol) and not neg and abs(tot - 1.0) <= R.DENSE_TOL:
             continue
         f = None
-        if _only_wrap_mismatches(rows, ref, nlat, nlon):
+        if _only_wrap_mismatches(rows, ref, nlat, nlon, tol):
             f = WRAP
         elif s['am'] and s['b'][0] != s['a'][0]:
             kref = R.kinked_reference(s['a'], p['pts'][k + 1], g)
-            if kref is not None and _matches(rows, kref):
+            if kref is not None and _matches(rows, kref, tol):
                 f = KINK
         show = lambda rr: [(r[0], r[1], round(r[2], 12)) for r in rr]  # noqa: E731
         vio.append(V(
